@@ -92,6 +92,9 @@ fn filled(n: usize, l: Lay, rank: usize, cls: VClass, seed: u64) -> GLWE<Vec<u8>
     g
 }
 
+/// C11 mode: only the two ample runs (stale destination / scratch contents), no exact-size windows.
+pub static TWO_FILLS_ONLY: std::sync::atomic::AtomicBool = std::sync::atomic::AtomicBool::new(false);
+
 /// Runs `f` four times: twice with ample scratch (different garbage in the window and in the destination), then
 /// twice with a window of exactly the queried size.  The two ample runs come first, so that the dependence on
 /// scratch / destination contents is judged for every case - also for the shapes whose exact-size run is a recorded finding.
@@ -115,6 +118,9 @@ where
         }
         if !w.guards_ok() {
             return Err(Verdict::fail(format!("{opn}|guard-damaged"), format!("backend={} op={opn}: bytes outside the {bytes}-byte scratch window were written\ncase={c:?}", c.be.name())));
+        }
+        if i == 1 && outs[0] == outs[1] && TWO_FILLS_ONLY.load(std::sync::atomic::Ordering::Relaxed) {
+            return Ok(());
         }
         if i == 1 && outs[0] != outs[1] {
             return Err(Verdict::fail(format!("{opn}|result-depends-on-scratch-or-stale-content"), format!("backend={} op={opn}: two runs with identical inputs and ample scratch but different garbage in the scratch window / destination differ\ncase={c:?}", c.be.name())));
@@ -554,7 +560,18 @@ pub fn run_all(ctx: &Ctx) {
     ctx.run_sub("core_exact_scratch", t.pick(6_000, 120_000), 64, crate::c03::strategy, test);
 }
 
+pub fn run_all_c11(ctx: &Ctx) {
+    let t = ctx.tier;
+    TWO_FILLS_ONLY.store(true, std::sync::atomic::Ordering::Relaxed);
+    ctx.run_sub("core_two_fills", t.pick(6_000, 120_000), 64, crate::c03::strategy, test);
+}
+
+pub const RULE_C11: &str = "core level: cases = (backend, one of 30 operations of poulpy-core and of the CMux family, generated gadget shapes / ranks / radices / sizes as in C03-C05); each call runs twice with ample scratch, from two different garbage fills of the scratch window and of every byte of the destination; the declared outputs must be identical and the guard regions intact. non-trivial = every executed case.";
+
 pub fn replay(ctx: &Ctx, sub: &str, case: &serde_json::Value) -> i32 {
+    if ctx.property == "C11" {
+        TWO_FILLS_ONLY.store(true, std::sync::atomic::Ordering::Relaxed);
+    }
     ctx.replay_case::<Case, _>(sub, case, test)
 }
 
